@@ -24,14 +24,14 @@ type c16Params struct {
 	API      string `json:"api"`      // readfrom | read
 	N        int    `json:"n"`        // records sent
 	Deliver  []int  `json:"deliver"`  // delivery sequence: index of sent record; negative: forged variant of record -(i+1)
-	ForgeHow []int  `json:"forge"`    // per negative entry (in order): 0 flip body byte, 1 flip tag/mac byte, 2 wrong epoch, 3 seq rewritten to a fresh number, 4 garbage with valid-looking header
+	ForgeHow []int  `json:"forge"`    // per negative entry (in order): 0 flip body byte, 1 flip tag/mac byte, 2 wrong epoch, 3 seq rewritten to a fresh number, 4 garbage with valid-looking header, 5 version, 6 length beyond the datagram, 7 length 0xffff, 8 datagram shorter than a record header, 9 content type
 	Boundary bool   `json:"boundary"` // delivery order built around the window edge
 }
 
 func (c16) ID() string    { return "C16" }
 func (c16) Level() string { return "exploration" }
 func (c16) Rule() string {
-	return "after a clean handshake the sender emits N records with unique payloads; the simulated network holds them back and then delivers a seeded sequence: any order, duplicates, replays of much older records, gaps, and forgeries interleaved at any point (flipped ciphertext / tag byte, wrong epoch, rewritten sequence number, garbage behind a plausible header); ReplayWindow 0 (default) and 32..160; GCM and CBC; receiver through ReadFrom and, separately, Read; some sequences are built around the window edge (newest-W, newest-W+1, ...). Oracle: set-based reference model - every delivered payload was sent, none twice, forgeries never delivered and without effect on later acceptance, and every genuine first arrival that is newer than all accepted or within max(32, min(configured,64)) behind the newest IS delivered. Each case also compares the window object (hook) with the same model on a seeded number sequence. distinct = distinct (parameters, delivery sequence); non-trivial = at least one duplicate or forgery was delivered to a live receiver"
+	return "after a clean handshake the sender emits N records with unique payloads; the simulated network holds them back and then delivers a seeded sequence: any order, duplicates, replays of much older records, gaps, and forgeries interleaved at any point (flipped ciphertext / tag byte, older / next / far epoch, rewritten sequence number, garbage behind a plausible header, changed version, length field beyond the datagram or 0xffff, datagram shorter than a header, changed content type); ReplayWindow 0 (default) and 32..160; GCM and CBC; receiver through ReadFrom and, separately, Read; some sequences are built around the window edge (newest-W, newest-W+1, ...). Oracle: set-based reference model - every delivered payload was sent, none twice, forgeries never delivered and without effect on later acceptance, and every genuine first arrival that is newer than all accepted or within max(32, min(configured,64)) behind the newest IS delivered. Each case also compares the window object (hook) with the same model on a seeded number sequence. distinct = distinct (parameters, delivery sequence); non-trivial = at least one duplicate or forgery was delivered to a live receiver"
 }
 func (c16) Components() (real, stub []string) {
 	return []string{"dtlcp client+server (instrumented): record authentication, epoch handling, replay window, ReadFrom and Read paths"},
@@ -83,7 +83,7 @@ func drawC16(src *vs.Src) *c16Params {
 			switch src.Intn(8) {
 			case 0:
 				p.Deliver = append(p.Deliver, -(src.Intn(p.N) + 1))
-				p.ForgeHow = append(p.ForgeHow, src.Intn(5))
+				p.ForgeHow = append(p.ForgeHow, src.Intn(10))
 			default:
 				// mostly increasing with local disorder and repeats
 				k := i * p.N / m
@@ -327,13 +327,33 @@ func c16Forge(orig []byte, how, salt int) []byte {
 	case 1:
 		b[len(b)-1-salt%8] ^= 0x01
 	case 2:
-		b[4] ^= 0x01 // epoch
+		// epoch: an older one, the next one (which a receiver may take for a key change), or a far one
+		ep := binary.BigEndian.Uint16(b[3:5])
+		switch salt % 3 {
+		case 0:
+			ep++
+		case 1:
+			ep ^= 0x01
+		default:
+			ep += uint16(2 + salt%200)
+		}
+		binary.BigEndian.PutUint16(b[3:5], ep)
 	case 3:
 		binary.BigEndian.PutUint16(b[9:11], uint16(5000+salt)) // a fresh, much newer sequence number
-	default:
+	case 4:
 		for i := 13; i < len(b); i++ {
 			b[i] = byte(i*7 + salt)
 		}
+	case 5:
+		b[1+salt%2] ^= byte(1 << (salt % 8)) // version
+	case 6:
+		binary.BigEndian.PutUint16(b[11:13], uint16(len(b)-13+1+salt%40)) // announces more than the datagram holds
+	case 7:
+		binary.BigEndian.PutUint16(b[11:13], 0xffff)
+	case 8:
+		b = b[:1+salt%12]
+	default:
+		b[0] = []byte{20, 21, 22, 24, 0, 255}[salt%6] // content type
 	}
 	return b
 }
